@@ -139,4 +139,83 @@ theorem day_traces (w : World) (prog : Program) (inp : Inputs) (n : Nat) (st : S
   · have : t.m = k := by omega
     exact ⟨by rw [this]; exact hk, hok⟩
 
+
+/-! ### (a) the tag chain -/
+
+/-- the completed-survey records of day `n` of the run, in the order the simulator produced them -/
+def dayTraces (w : World) (prog : Program) (inp : Inputs) (n : Nat) : List MethTrace :=
+  (simDayOut w prog inp n (simState w prog inp n)).traces
+
+def dayDones (w : World) (prog : Program) (inp : Inputs) (n : Nat) : List Done :=
+  (dayTraces w prog inp n).flatMap (·.dones)
+
+/-- the events the simulation sends to one emission on day `n` -/
+def evTrace (w : World) (prog : Program) (inp : Inputs) (info : EmInfo) (n : Nat) : List Emission.Ev :=
+  evsOf info (dayDones w prog inp n)
+
+theorem mem_tagTargets (rep : Sensor.SiteRep) (g c : Nat) (h : (g, c) ∈ Sensor.tagTargets rep) :
+    ∃ er ∈ rep.eqgs, ∃ cr ∈ er.comps, er.eqg = g ∧ cr.comp = c ∧ cr.measured > 0 := by
+  unfold Sensor.tagTargets at h
+  simp only [List.mem_flatMap, List.mem_map, List.mem_filter, decide_eq_true_eq, Prod.mk.injEq] at h
+  obtain ⟨er, her, cr, ⟨hcr, hpos⟩, hg, hc⟩ := h
+  exact ⟨er, her, cr, hcr, hg, hc, hpos⟩
+
+theorem site_survey_no_targets (err mdl : Int) (m : Nat) (trd : Int) (s : Nat) (xs : List (Sensor.Emis × Sensor.Rolls)) :
+    Sensor.tagTargets (Sensor.surveyOf { cfg := .site err, m := m, trd := trd, mdl := mdl, site := s, xs := xs }) = [] := by
+  simp [Sensor.surveyOf, Sensor.survey, Sensor.report, Sensor.tagTargets]
+
+/-- **(a) whole-chain clause of C04 in the integrated simulation.**  Every tag request that reaches an
+emission on day `n` of `simRun` was issued by the method at the program position named in the request
+— a component-level (tagging) method, handing over its own reporting delay — on a survey of the
+emission's site that the method's crews *completed* on that day (`Crew.deployDay` of that method's
+plan of the day), and the sensor's report of that survey shows a measured rate > 0 at the emission's
+component. -/
+theorem sim_tag_chain (w : World) (prog : Program) (inp : Inputs) (info : EmInfo) (n : Nat)
+    (e : Emission.TagEv) (h : Emission.Ev.tag e ∈ evTrace w prog inp info n) :
+    ∃ t ∈ dayTraces w prog inp n, ∃ d ∈ t.dones,
+      t.m = e.company ∧ prog[e.company]? = some t.cfg ∧ t.cfg.tags = true ∧ e.trd = t.cfg.trd ∧
+      t.dd = deploy t.cfg inp n t.reqs ∧ d.out ∈ t.dd.out ∧ d.out.rep.complete = true ∧
+      d.out.req.site = info.site ∧
+      d.rep = Sensor.surveyOf d.sv ∧ d.sv.site = info.site ∧ d.sv.m = e.company ∧
+      ∃ er ∈ d.rep.eqgs, ∃ cr ∈ er.comps, er.eqg = info.eqg ∧ cr.comp = info.comp ∧ cr.measured > 0 := by
+  unfold evTrace evsOf at h
+  obtain ⟨d, hd, hev⟩ := List.mem_flatMap.1 h
+  unfold dayDones at hd
+  obtain ⟨t, ht, hdt⟩ := List.mem_flatMap.1 hd
+  obtain ⟨hprog, hdd, _, hdone⟩ := day_traces w prog inp n _ t ht
+  obtain ⟨hout, hm, htrd, _, hsite, hcfg, _⟩ := hdone d hdt
+  unfold evOfDone at hev
+  rcases List.mem_append.1 hev with hev | hev
+  · split at hev
+    · rename_i hc
+      simp only [List.mem_singleton, Emission.Ev.tag.injEq] at hev
+      obtain ⟨hs, hcont⟩ := hc
+      have hmem : (info.eqg, info.comp) ∈ Sensor.tagTargets d.rep := by
+        rw [← d.htargets]; simpa using hcont
+      have htags : t.cfg.tags = true := by
+        cases htg : t.cfg.tags with
+        | true => rfl
+        | false =>
+          exfalso
+          have hc' : d.sv.cfg = .site t.cfg.err := by rw [hcfg]; simp [sensorCfg, htg]
+          have : Sensor.tagTargets d.rep = [] := by
+            rw [d.hrep]
+            have hsv : d.sv = { cfg := .site t.cfg.err, m := d.sv.m, trd := d.sv.trd, mdl := d.sv.mdl,
+                                site := d.sv.site, xs := d.sv.xs } := by
+              cases hsv' : d.sv; simp_all
+            rw [hsv]; exact site_survey_no_targets ..
+          rw [this] at hmem; cases hmem
+      have hcomp := List.mem_filter.1 hout
+      refine ⟨t, ht, d, hdt, ?_, ?_, htags, ?_, hdd, hcomp.1, by simpa using hcomp.2, ?_, d.hrep, hs, ?_,
+        mem_tagTargets d.rep _ _ hmem⟩
+      · rw [hev, ← hm]
+      · rw [hev]; simp only; rw [hm]; exact hprog
+      · rw [hev]; exact htrd
+      · rw [← hsite]; exact hs
+      · rw [hev]
+    · cases hev
+  · split at hev
+    · simp at hev
+    · cases hev
+
 end LdarModel.Sim
